@@ -390,9 +390,11 @@ func H_C01(lg Language, L int) {
 
 func H_C05(lg Language, L int) {
 	ent := verifBytes("ent", L)
+	ref := specSentence(lg, ent) // also gives the witness generator the reference-side word indices
 	got, err := NewMnemonicByEntropy(ent, lg)
 	verifAssume(err == nil)
 	verifObserve("got", got)
+	verifAssert(got == ref, "sentence-equals-reference")
 	gw := strings.Split(got, specSep(lg))
 	verifAssert(len(gw) == L*3/4, "word-count")
 	idx := make([]int, len(gw))
